@@ -176,7 +176,7 @@ package lockedfile
 //@   names (unlock, err)
 //@   requires mu != nil && mu.Path != ""
 //@   modifies fsExists, fsData, fsSize, fsBytes, fdPath, fdMode, fdClosed, failBudget, F_S_lockedfile_File_*, gCleanup
-//@   at call lockedfile.OpenFile#1: requires flag & 3 == 2 && flag & 512 == 0 && sameStr(name, mu.Path)
+//@   ensures err == nil ==> isClosure(unlock, "Lock$1") && fdPath[capturedVar(unlock, "f").osFile.File] == sid(mu.Path) && fdMode[capturedVar(unlock, "f").osFile.File] == 2 && !fdClosed[capturedVar(unlock, "f").osFile.File]
 //@   ensures fsBytes == old(fsBytes)
 //@ func Lock$1
 //@   requires mu != nil && f != nil && !f.closed
